@@ -14,7 +14,7 @@ documented behaviour of the wrap modes:
          end of the upper row) or to just after the last wide character; a run with neither that is
          longer than a row is broken anywhere, and in that case the run is first pulled up behind the
          space that ended the previous row if that row still had room ("we are breaking the word
-         anyway").
+         anyway") -- unless that row holds zero-width characters only (such a row is left alone).
 Every newline and every space consumed at a wrap point is *hidden*: it occupies no cell, its position
 is the cell just after the last displayed character of its row.  The end of the text is the position
 after the last character of the last row.
@@ -117,7 +117,17 @@ def break_rows(chars, width, wrap):
                 # an unbreakable run longer than a row
                 if rows:
                     ps, pe, pend = rows[-1]
-                    if pend is not None and pend < n and chars[pend] == " " and _width(chars, ps, pe) < width:
+                    # Oracle correction (thorough-tier triage): a previous row that holds zero-width characters
+                    # only ('́ aaa' at width 2) is left alone -- urwid shows '' / 'aa' / 'a', the first form
+                    # of this rule pulled the word up behind its space as well ('́ a' / 'aa') and reported
+                    # "rows: widget 3, reference 2" at every cursor.  Neither C10 nor C03 asks for the pull-up
+                    # (it is urwid's own nicety, "we're breaking the word anyway"); C03 names "lines made solely
+                    # of zero-width characters" as lines that are not shown, and urwid keeps such a line on
+                    # purpose (13b821f: restarting at the space would drop the zero-width characters).  What
+                    # the statement does fix -- the cursor cell of the offsets on that row -- is still checked
+                    # (and fails: known finding C10-KF1).  An *empty* previous row (' aaa') is still pulled up.
+                    zw_only_row = pe > ps and _width(chars, ps, pe) == 0
+                    if pend is not None and pend < n and chars[pend] == " " and _width(chars, ps, pe) < width and not zw_only_row:
                         rows.pop()
                         i = ps
                         p = _fill(chars, i, e, width)
